@@ -120,6 +120,7 @@ type readObs struct {
 type observed struct {
 	Raw      []segObs
 	Full     []readObs
+	Fatal    []string // class of every fatal error returned: RcFatal (ErrInvalidEDI) or RcPlain
 	Problems []string // things no model outcome stands for: panics, hangs, foreign error types
 }
 
@@ -190,6 +191,7 @@ func run(c *caseJ) *observed {
 					return
 				}
 				o.Raw = append(o.Raw, segObs{Err: true})
+				o.Fatal = append(o.Fatal, "RcFatal")
 				continue
 			}
 			so := segObs{Name: []byte(seg.Name)}
@@ -226,7 +228,10 @@ func run(c *caseJ) *observed {
 				}
 				if err != nil {
 					if !edi.IsErrInvalidEDI(err) {
-						o.Problems = append(o.Problems, "ediReader.Read returned a non-fatal error: "+err.Error())
+						o.Problems = append(o.Problems, "ediReader.Read returned an error that is not the fatal ErrInvalidEDI: "+err.Error())
+						o.Fatal = append(o.Fatal, "RcPlain")
+					} else {
+						o.Fatal = append(o.Fatal, "RcFatal")
 					}
 					o.Full = append(o.Full, readObs{Fatal: true})
 					return
@@ -505,7 +510,7 @@ func coqCase(c *caseJ, o *observed) string {
 		}
 		logical = "(Some " + vh.CoqList(ss) + ")"
 	}
-	return fmt.Sprintf("mkECase %s %s %s %s %s", cfg, coqBytes(unhx(c.InputHex)), vh.CoqList(raws), full, logical)
+	return fmt.Sprintf("mkECase %s %s %s %s %s %s", cfg, coqBytes(unhx(c.InputHex)), vh.CoqList(raws), full, vh.CoqList(o.Fatal), logical)
 }
 
 // ---- main ------------------------------------------------------------------------------------
@@ -656,6 +661,14 @@ func evaluate(c *caseJ, sum *vh.Summary, cw *vh.CaseWriter, verbose bool) {
 			sum.Hist("full-reader-fatal")
 		}
 	}
+	for _, k := range o.Fatal {
+		sum.Hist("fatal-error-class:" + k)
+	}
+	for _, s := range o.Raw {
+		if s.Err {
+			sum.Hist("missing-segment-name")
+		}
+	}
 	for _, s := range c.Logical {
 		n := len(s.Elems) - 1 // elements after the name
 		switch {
@@ -722,7 +735,7 @@ func main() {
 	r := vh.NewRng(o.Seed)
 	sum := vh.NewSummary("C07", o,
 		"EDI inputs run through edi.NewNonValidatingReader and edi.NewReader; non-trivial = an 'ok' case (logical segments encoded by the generator's inverse, oracle evaluated) in which at least one data value contains a delimiter or the release character, so that escaping decides the result; distinct by (configuration, input bytes, chunking, declarations)")
-	cw := vh.NewCaseWriter(o, "C07", "Base.Utf8 Model.Edi", "ecase", "check_case")
+	cw := vh.NewCaseWriter(o, "C07", "Base.Utf8 Base.ErrClass Model.Edi", "ecase", "check_case")
 	cw.PerFile = 95
 	// the initial scanner buffer is an exported knob of the package; long segments are sized against it
 	if edi.ReaderBufSize >= 16 && edi.ReaderBufSize <= 512 {
@@ -757,7 +770,7 @@ func main() {
 			sum.Hist("corpus")
 		}
 	}
-	total := o.Count(1500, 40000)
+	total := o.Count(1300, 40000)
 	for i := 0; i < total; i++ {
 		var c *caseJ
 		if r.Chance(0.75) {
